@@ -609,6 +609,40 @@ def into_iter_collect_to_env(s, rewrites=None):
     return re.sub(r'\b(\w+)\.into_iter\(\)\.collect\(\)', rep2, s)
 
 
+def status_code_struct(manifest):
+    """D14 for StatusCode: the `bitflags!` block of types/status_codes.rs becomes `struct StatusCode { bits: u32 }` with EVERY constant
+    of the real file (value computed from its expression) and the real is_bad / is_uncertain / is_good / status (types/status_code.rs:
+    contains(IS_ERROR), contains(IS_UNCERTAIN), neither, the upper 16 bits). A unit that uses it sees the same codes the code does."""
+    src = Src('types/status_codes.rs', manifest)
+    m = re.search(r'bitflags!\s*\{\s*(?:#\[[^\]]*\]\s*)*pub struct StatusCode: u32 \{', src.text)
+    if not m:
+        raise Undecided('lost anchor: bitflags struct StatusCode')
+    i = src.text.index('{', m.end() - 1)
+    j = _match(src.text, i, '{', '}')
+    body = src.text[i + 1:j]
+    consts = []
+    for cm in re.finditer(r'^\s*const (\w+)\s*=\s*([0-9A-Fa-fx_<| ]+);', body, re.M):
+        v = eval(cm.group(2).replace('_', ''), {'__builtins__': {}})
+        consts.append('    pub const %s: StatusCode = StatusCode { bits: %d };' % (cm.group(1), v))
+    if len(consts) < 200:
+        raise Undecided('lost anchor: status code constants')
+    manifest.add(file='lib/src/' + src.rel, name='bitflags StatusCode', first_line=src._line(m.start()),
+                 n_lines=src.text.count('\n', m.start(), j) + 1, sha=sha16(src.text[m.start():j + 1]))
+    return '''#[derive(Debug, Clone, Copy, PartialEq, Eq, Structural)]
+pub struct StatusCode { pub bits: u32 }
+#[allow(non_upper_case_globals)]
+impl StatusCode {
+%s
+    pub fn bits(&self) -> (r: u32) ensures r == self.bits { self.bits }
+    pub fn is_bad(&self) -> (r: bool) ensures r == (self.bits & 0x8000_0000 == 0x8000_0000) { self.bits & 0x8000_0000 == 0x8000_0000 }
+    pub fn is_uncertain(&self) -> (r: bool) ensures r == (self.bits & 0x4000_0000 == 0x4000_0000) { self.bits & 0x4000_0000 == 0x4000_0000 }
+    pub fn is_good(&self) -> (r: bool) ensures r == (self.bits & 0x8000_0000 != 0x8000_0000 && self.bits & 0x4000_0000 != 0x4000_0000)
+    { !self.is_bad() && !self.is_uncertain() }
+    pub fn status(&self) -> (r: StatusCode) ensures r.bits == self.bits & 0xffff_0000 { StatusCode { bits: self.bits & 0xffff_0000 } }
+}
+''' % '\n'.join(consts)
+
+
 def position_to_loop(s, rewrites=None):
     """D17: the expression `E.iter().position(|x| PRED)` over a Vec/VecDeque place E (PRED an expression) becomes the search
     loop it stands for, as a block expression:
